@@ -413,6 +413,9 @@ func genExpr(r *gen.Rand) exprCase {
 	if os.Getenv("C18_ONLY") == "without-cmp" {
 		return genWithoutCmp(r)
 	}
+	if os.Getenv("C18_ONLY") == "binop" {
+		return genBinop(r)
+	}
 	if strings.HasPrefix(os.Getenv("C18_ONLY"), "fn:") {
 		if r.Chance(1, 4) {
 			return genAgg(r)
